@@ -1,7 +1,7 @@
 """C06 — scripts cannot crash the host; the VM stays usable (E3a panic containment, E3b stack reset)."""
-from . import e3a, e3b, e3c, e3d, e3e
+from . import e3a, e3b, e3c, e3d, e3e, e3f
 
-CRATES = {"gluon_vm", "gluon", "gluon_c_api", "gluon_base", "gluon_repl"}
+CRATES = {"gluon_vm", "gluon", "gluon_c_api", "gluon_base", "gluon_repl", "gluon_parser"}
 
 
 def run(fb, rep, tier, cfg):
@@ -11,7 +11,7 @@ def run(fb, rep, tier, cfg):
         "to std::panic::catch_unwind and the caught payload is turned into Status::Error; every extern \"C\" fn(&Thread) -> Status of "
         "the library crates reaches its target only through unpack_and_call (or is one of two reviewed hand-written primitives); "
         "the code that runs outside the barrier has no unreviewed unwrap/expect/panic/arithmetic/index site. E3b: every host "
-        "entry that starts the interpreter passes reset_stack on each error exit. E3c: the extern-frame lock (stack::Lock, a Copy token) obtained from into_lock is released, forwarded to a Lock-taking call or captured by the poll closure on every path to a return of every function that handles one. E3d: no assert-lowered (panicking) arithmetic on i64/u8 script values in the interpreter bodies. Not decided: panics while an asynchronous "
+        "entry that starts the interpreter passes reset_stack on each error exit. E3c: the extern-frame lock (stack::Lock, a Copy token) obtained from into_lock is released, forwarded to a Lock-taking call or captured by the poll closure on every path to a return of every function that handles one. E3d: no assert-lowered (panicking) arithmetic on i64/u8 script values in the interpreter bodies. E3f: every unconditional panic site of the hand-written tokenizer (token.rs, str_suffix.rs) is reviewed. Not decided: panics of the layout engine and the generated grammar; panics while an asynchronous "
         "primitive's future is polled (outside the extern frame; they unwind to the host as ordinary Rust panics), allocation "
         "failure, that every failure becomes an error value with the right content.")
     rep.assumptions += ["a panic inside the barrier leaves the VM in a state later evaluations can use (AssertUnwindSafe); a primitive that panics while holding the context lock poisons it",
@@ -21,4 +21,5 @@ def run(fb, rep, tier, cfg):
     e3c.run(fb, rep)
     e3d.run(fb, rep)
     e3e.run(fb, rep)
+    e3f.run(fb, rep)
     e3a.run(fb, rep, tier)
